@@ -551,3 +551,159 @@ Proof.
     apply (Npre a' b' q E Hb).
   - exact Npost.
 Qed.
+
+(* ====================================================================== *)
+(* renderings that TWO patterns of the key read: the first rewrites the value, the second finds the
+   mask in its place and rewrites it to itself                                                        *)
+(* ====================================================================== *)
+Fixpoint check_ex_go (kcs : list cset) (A : asub) (ex : list nat) (i : nat) (l : list re) : bool :=
+  match l with
+  | [] => true
+  | r :: t => (if existsb (Nat.eqb i) ex then true else negb (may_match_somewhere kcs 200 r A)) && check_ex_go kcs A ex (S i) t
+  end.
+Definition check_ex (k : str) (A : asub) (ex : list nat) : bool := check_ex_go (kcs_of k) A ex 0 (pats k).
+
+Lemma check_ex_go_spec kcs A ex : forall l i0, check_ex_go kcs A ex i0 l = true ->
+  forall i r, nth_error l i = Some r -> ~ In (i0 + i)%nat ex -> may_match_somewhere kcs 200 r A = false.
+Proof.
+  induction l as [|r0 l IH]; intros i0 H i r Hi Hne; [destruct i; discriminate|].
+  cbn [check_ex_go] in H. apply andb_true_iff in H. destruct H as [H1 H2]. destruct i as [|i].
+  - cbn in Hi. inversion Hi; subst. rewrite Nat.add_0_r in Hne.
+    destruct (existsb (Nat.eqb i0) ex) eqn:E.
+    + exfalso. apply Hne. apply existsb_exists in E. destruct E as (x & Hx & Ex). apply Nat.eqb_eq in Ex. subst. exact Hx.
+    + apply negb_true_iff in H1. exact H1.
+  - apply (IH (S i0) H2 i r Hi). replace (S i0 + i)%nat with (i0 + S i)%nat by lia. exact Hne.
+Qed.
+
+Lemma ex_none k A ex x secret : k <> [] -> check_ex k A ex = true -> conc gen_ci_table k A x ->
+  forall i r t, nth_error (tagged k secret) i = Some (r, t) -> ~ In i ex -> re_sub r t x = x.
+Proof.
+  intros Hk Hc HA i r t Hi Hne. apply re_sub_none. intros a b q E.
+  assert (Hr : nth_error (pats k) i = Some r).
+  { rewrite <- (map_fst_tagged k secret). rewrite nth_error_map, Hi. reflexivity. }
+  pose proof (check_ex_go_spec _ _ _ _ 0%nat Hc i r Hr Hne) as Hm.
+  exact (abs_no_match gen_ci_table k Hk 200 r A x Hm HA a b q E).
+Qed.
+
+Lemma sub_all_two L : forall j j2 m m1 rj tj r2 tt2,
+  (j < j2)%nat -> nth_error L j = Some (rj, tj) -> nth_error L j2 = Some (r2, tt2) ->
+  re_sub rj tj m = m1 -> re_sub r2 tt2 m1 = m1 ->
+  (forall i r t, nth_error L i = Some (r, t) -> i <> j -> i <> j2 -> re_sub r t m = m /\ re_sub r t m1 = m1) ->
+  sub_all L m = m1.
+Proof.
+  intros j j2 m m1 rj tj r2 tt2 Hlt Hj Hj2 Hs Hs2 Ho.
+  apply (sub_all_one L j m m1 rj tj Hj Hs).
+  - intros i r t Hi Hi_lt. apply (Ho i r t Hi); lia.
+  - intros i r t Hi Hi_gt. destruct (Nat.eq_dec i j2) as [->|Hne].
+    + rewrite Hj2 in Hi. inversion Hi; subst. exact Hs2.
+    + apply (Ho i r t Hi); lia.
+Qed.
+
+Lemma whole_frame2 k j j2 rj tj r2 tt2 AR m m1 mask :
+  In k gen_keys -> (j < j2)%nat -> nth_error (tagged k mask) j = Some (rj, tj) -> nth_error (tagged k mask) j2 = Some (r2, tt2) ->
+  check_ex k (shape_of AR) [j; j2] = true ->
+  conc gen_ci_table k (shape_of AR) m -> conc gen_ci_table k (shape_of AR) m1 ->
+  re_sub rj tj m = m1 -> re_sub r2 tt2 m1 = m1 ->
+  occursb k (lower m) = true -> others_absent k m = true -> others_absent k m1 = true ->
+  mask_password m mask = m1.
+Proof.
+  intros Hin Hlt Hj Hj2 Hco Cv Cm Hd Hd2 Hocc Hav Ham. destruct (gen_key_ok k Hin) as [Hne Hk].
+  apply (mask_password_one_key k _ _ mask Hin Hocc Hav Ham).
+  apply (sub_all_two (tagged k mask) j j2 _ _ rj tj r2 tt2 Hlt Hj Hj2 Hd Hd2).
+  intros i r t Hi N1 N2.
+  assert (Hnin : ~ In i [j; j2]) by (intros [E|[E|[]]]; congruence).
+  split; [apply (ex_none k _ _ _ mask Hne Hco Cv i r t Hi Hnin)|apply (ex_none k _ _ _ mask Hne Hco Cm i r t Hi Hnin)].
+Qed.
+
+(* k = "v" (both quotes double) / k = 'v' (both single): patterns 2[0] then 2[1] resp. 2[2] *)
+Definition shapeR_eq (q : N) (kcs : list cset) : asub :=
+  [AKey kcs; ARun dig_cs false; ARun py_space false; AOne [(61, 61)]; ARun py_space false; AOne [(q, q)]; ARun cs_quoted false; AOne [(q, q)]].
+Definition eq_second (q : N) : nat := if q =? 34 then 1%nat else 2%nat.
+Lemma checks_eq : forallb (fun q => forallb (fun k =>
+    check_ex k (shape_of (shapeR_eq q (kcs_of k))) [0%nat; eq_second q] && check_self k (shapeR_eq q (kcs_of k)) 0 &&
+    check_self k (shapeR_eq q (kcs_of k)) (eq_second q)) gen_keys) [34; 39] = true.
+Proof. vm_cast_no_check (eq_refl true). Qed.
+
+Definition msg_eq (pre K d w1 w2 : str) (q : N) (x : str) (post : str) : str := pre ++ K ++ d ++ w1 ++ 61 :: w2 ++ q :: x ++ q :: post.
+
+Lemma whole_eq_step k K d w1 w2 q v mask pre post :
+  In k gen_keys -> casing_of k K -> forallb ascii_digit d = true ->
+  forallb is_space w1 = true -> forallb is_space w2 = true -> (q = 34 \/ q = 39) ->
+  forallb quoted_char v = true -> forallb quoted_char mask = true ->
+  forallb ctx_char pre = true -> forallb ctx_char post = true ->
+  only_at gen_ci_table k (msg_eq pre K d w1 w2 q v post) [length pre] = true ->
+  only_at gen_ci_table k (msg_eq pre K d w1 w2 q mask post) [length pre] = true ->
+  others_absent k (msg_eq pre K d w1 w2 q v post) = true ->
+  others_absent k (msg_eq pre K d w1 w2 q mask post) = true ->
+  mask_password (msg_eq pre K d w1 w2 q v post) mask = msg_eq pre K d w1 w2 q mask post.
+Proof.
+  intros Hin Hcase Hd Hw1 Hw2 Hq Hv Hmk Hpre Hpost Hov Hom Hav Ham.
+  destruct (gen_key_ok k Hin) as [Hne Hk].
+  pose proof (casing_ok_of k K Hk Hcase) as HK. pose proof (digits_in d Hd) as Hd'.
+  pose proof (spaces_in _ Hw1) as Hw1'. pose proof (spaces_in _ Hw2) as Hw2'.
+  pose proof (all_in_impl _ _ _ quoted_in Hv) as Hv'. pose proof (all_in_impl _ _ _ quoted_in Hmk) as Hmk'.
+  pose proof (ctx_all _ Hpre) as Hpre'. pose proof (ctx_all _ Hpost) as Hpost'.
+  assert (Hqin : In q [34; 39]) by (destruct Hq as [-> | ->]; [left|right; left]; reflexivity).
+  pose proof checks_eq as Hch. rewrite forallb_forall in Hch. specialize (Hch q Hqin). rewrite forallb_forall in Hch. specialize (Hch k Hin).
+  apply andb_true_iff in Hch. destruct Hch as [Hch Hcs2]. apply andb_true_iff in Hch. destruct Hch as [Hco Hcs].
+  assert (Hqq : cmem q cs_quotes = true) by (destruct Hq as [-> | ->]; reflexivity).
+  assert (Hq1 : cmem q [(q, q)] = true) by (cbn [cmem]; rewrite !N.leb_refl; reflexivity).
+  assert (Parts : forall x, all_in cs_quoted x = true ->
+            only_at gen_ci_table k (msg_eq pre K d w1 w2 q x post) [length pre] = true ->
+            let S := K ++ d ++ w1 ++ 61 :: w2 ++ q :: x ++ q :: post in
+            conc gen_ci_table k (shape_of (shapeR_eq q (kcs_of k))) (pre ++ S) /\
+            (forall a' b', pre = a' ++ b' -> b' <> [] -> conc gen_ci_table k (ARun ctx_cs true :: shapeR_eq q (kcs_of k) ++ [ARun ctx_cs false]) (b' ++ S)) /\
+            conc gen_ci_table k [ARun ctx_cs false] post).
+  { intros x Hx' Hox.
+    pose proof (conc_parts gen_ci_table k Hne ctx_cs false pre
+                  [(AKey (kcs_of k), K); (ARun dig_cs false, d); (ARun py_space false, w1); (AOne [(61, 61)], [61]); (ARun py_space false, w2);
+                   (AOne [(q, q)], [q]); (ARun cs_quoted false, x); (AOne [(q, q)], [q])]
+                  ctx_cs false post (msg_eq pre K d w1 w2 q x post)) as P.
+    cbn zeta in P. apply P; clear P.
+    - reflexivity.
+    - valid_segs Hne.
+    - intros a b E Hp. pose proof (only_at_spec _ _ _ _ Hox a b E Hp) as Hi. cbn [key_offsets fst snd is_key app Nat.add]. exact Hi. }
+  destruct (Parts v Hv' Hov) as (Cv & Cpre & Cpost). destruct (Parts mask Hmk' Hom) as (Cm & Cpre1 & _).
+  assert (Hrj : nth_error (pats k) 0 = Some (gen_tp2_0 k)) by reflexivity.
+  destruct (self_nomatch k _ 0 _ pre _ post Hin Hcs Hrj Cpre Cpost) as [Npre Npost].
+  unfold msg_eq.
+  (* the first pattern, on the message; the second, on the masked message *)
+  assert (D1 : forall x, all_in cs_quoted x = true -> nomatch_pre (gen_tp2_0 k) pre (K ++ d ++ w1 ++ 61 :: w2 ++ q :: x ++ q :: post) ->
+           re_sub (gen_tp2_0 k) (t2 mask) (pre ++ K ++ d ++ w1 ++ 61 :: w2 ++ q :: x ++ q :: post)
+           = pre ++ K ++ d ++ w1 ++ 61 :: w2 ++ q :: mask ++ q :: post).
+  { intros x Hx' Np.
+    replace (pre ++ K ++ d ++ w1 ++ 61 :: w2 ++ q :: mask ++ q :: post) with (pre ++ (K ++ d ++ w1 ++ 61 :: w2 ++ [q]) ++ mask ++ [q] ++ post) by norm_app2.
+    eapply (gm_sub_two_ctx gen_ci_table (gen_tp2_0 k) pre _ (K ++ d ++ w1 ++ 61 :: w2 ++ [q]) x [q] post mask);
+      [cbv [gen_tp2_0]; gm_go|norm_app2|norm_app2| |cbn [gget Nat.eqb app]; reflexivity|norm_app2
+      |cbn [gget Nat.eqb app]; reflexivity|norm_app2|norm_app2|exact Np|exact Npost].
+    destruct K, d, w1; discriminate. }
+  destruct Hq as [-> | ->].
+  - (* double quotes: 2[0] then 2[1] *)
+    assert (Hr2 : nth_error (pats k) 1 = Some (gen_tp2_1 k)) by reflexivity.
+    destruct (self_nomatch k _ 1 _ pre _ post Hin Hcs2 Hr2 Cpre1 Cpost) as [Npre2 Npost2].
+    apply (whole_frame2 k 0 1 (gen_tp2_0 k) (t2 mask) (gen_tp2_1 k) (t2 mask) (shapeR_eq 34 (kcs_of k)) _ _ mask Hin ltac:(repeat constructor) eq_refl eq_refl Hco Cv Cm);
+      [exact (D1 v Hv' Npre)| |apply (key_occurs k K pre _ Hk Hcase)|exact Hav|exact Ham].
+    pose proof (all_in_impl dq_char cs_dq mask dq_in) as Hdq.
+    assert (Hmdq : all_in cs_dq mask = true).
+    { apply Hdq. rewrite forallb_forall in Hmk |- *. intros c Hc. specialize (Hmk c Hc). unfold quoted_char, dq_char, is_quote in *.
+      apply andb_true_iff in Hmk. destruct Hmk as [H1 H2]. rewrite H1. apply negb_true_iff in H2. apply orb_false_iff in H2. destruct H2 as [H2 _]. rewrite H2. reflexivity. }
+    replace (pre ++ K ++ d ++ w1 ++ 61 :: w2 ++ 34 :: mask ++ 34 :: post) with (pre ++ (K ++ d ++ w1 ++ 61 :: w2 ++ [34]) ++ mask ++ [34] ++ post) at 2 by norm_app2.
+    eapply (gm_sub_two_ctx gen_ci_table (gen_tp2_1 k) pre _ (K ++ d ++ w1 ++ 61 :: w2 ++ [34]) mask [34] post mask);
+      [cbv [gen_tp2_1]; gm_go|norm_app2|norm_app2| |cbn [gget Nat.eqb app]; reflexivity|norm_app2
+      |cbn [gget Nat.eqb app]; reflexivity|norm_app2|norm_app2|exact Npre2|exact Npost2].
+    destruct K, d, w1; discriminate.
+  - (* single quotes: 2[0] then 2[2] *)
+    assert (Hr2 : nth_error (pats k) 2 = Some (gen_tp2_2 k)) by reflexivity.
+    destruct (self_nomatch k _ 2 _ pre _ post Hin Hcs2 Hr2 Cpre1 Cpost) as [Npre2 Npost2].
+    apply (whole_frame2 k 0 2 (gen_tp2_0 k) (t2 mask) (gen_tp2_2 k) (t2 mask) (shapeR_eq 39 (kcs_of k)) _ _ mask Hin ltac:(repeat constructor) eq_refl eq_refl Hco Cv Cm);
+      [exact (D1 v Hv' Npre)| |apply (key_occurs k K pre _ Hk Hcase)|exact Hav|exact Ham].
+    pose proof (all_in_impl sq_char cs_sq mask sq_in) as Hsq.
+    assert (Hmsq : all_in cs_sq mask = true).
+    { apply Hsq. rewrite forallb_forall in Hmk |- *. intros c Hc. specialize (Hmk c Hc). unfold quoted_char, sq_char, is_quote in *.
+      apply andb_true_iff in Hmk. destruct Hmk as [H1 H2]. rewrite H1. apply negb_true_iff in H2. apply orb_false_iff in H2. destruct H2 as [_ H2]. rewrite H2. reflexivity. }
+    replace (pre ++ K ++ d ++ w1 ++ 61 :: w2 ++ 39 :: mask ++ 39 :: post) with (pre ++ (K ++ d ++ w1 ++ 61 :: w2 ++ [39]) ++ mask ++ [39] ++ post) at 2 by norm_app2.
+    eapply (gm_sub_two_ctx gen_ci_table (gen_tp2_2 k) pre _ (K ++ d ++ w1 ++ 61 :: w2 ++ [39]) mask [39] post mask);
+      [cbv [gen_tp2_2]; gm_go|norm_app2|norm_app2| |cbn [gget Nat.eqb app]; reflexivity|norm_app2
+      |cbn [gget Nat.eqb app]; reflexivity|norm_app2|norm_app2|exact Npre2|exact Npost2].
+    destruct K, d, w1; discriminate.
+Qed.
